@@ -283,6 +283,9 @@ enum RNode {
     PermPrf(KeyKind, u64),
     Random,
     RandomPerm,
+    /// randomising operations that take an argument (all of them read the input x)
+    CuckooPerm,
+    Decompose,
 }
 
 #[derive(Clone, Copy, Debug, PartialEq)]
@@ -320,16 +323,24 @@ fn build_b(rn: &[RNode], oe: OutExpr) -> ciphercore_base::errors::Result<BGraph>
         KeyKind::Constant => key_const.clone(),
         KeyKind::SentRandom => key_sent.clone(),
     };
+    // rnodes: the randomising nodes themselves; uses: a value of type t derived from each (the node itself, or
+    // the first component of DecomposeSwitchingMap's result)
     let mut rnodes = vec![];
+    let mut uses = vec![];
     for r in rn {
         let n = match r {
             RNode::Prf(k, iv) => g.add_node(vec![key(*k)], vec![], Operation::PRF(*iv, t.clone()))?,
             RNode::PermPrf(k, iv) => g.add_node(vec![key(*k)], vec![], Operation::PermutationFromPRF(*iv, 3))?,
             RNode::Random => g.random(t.clone())?,
             RNode::RandomPerm => g.random_permutation(3)?,
+            RNode::CuckooPerm => g.add_node(vec![x.clone()], vec![], Operation::CuckooToPermutation)?,
+            RNode::Decompose => g.add_node(vec![x.clone()], vec![], Operation::DecomposeSwitchingMap(3))?,
         };
+        uses.push(if matches!(r, RNode::Decompose) { n.tuple_get(0)? } else { n.clone() });
         rnodes.push(n);
     }
+    let tracked = rnodes;
+    let rnodes = uses;
     let first = rnodes[0].clone();
     let last = rnodes[rnodes.len() - 1].clone();
     let out = match oe {
@@ -353,7 +364,7 @@ fn build_b(rn: &[RNode], oe: OutExpr) -> ciphercore_base::errors::Result<BGraph>
     g.finalize()?;
     c.set_main_graph(g)?;
     c.finalize()?;
-    Ok(BGraph { ctx: c, rnodes })
+    Ok(BGraph { ctx: c, rnodes: tracked })
 }
 
 /// nodes the output value depends on. A getter applied directly to a tuple constructor depends only on the
@@ -449,6 +460,8 @@ fn part_b(r: &Report) {
         }
         menu.push(RNode::PermPrf(k, 1));
     }
+    menu.push(RNode::CuckooPerm);
+    menu.push(RNode::Decompose);
     let outs = [
         OutExpr::First, OutExpr::Last, OutExpr::SumAll, OutExpr::FirstMinusLast, OutExpr::XPlusFirst,
         OutExpr::TupleGetFirst, OutExpr::TupleGetLast, OutExpr::FirstTwice, OutExpr::Input,
@@ -606,7 +619,7 @@ pub fn run(r: &Report) -> i32 {
     part_c(r);
     r.finish(
         "exploration",
-        "part A: for every program of the C01 space (depth 1 + curated + protocols drawing several masks from one key: OT, both truncations, A2B/B2A, sort, Call/Iterate bodies inlined 1,2,5,17 times) x owner vectors x output subsets x 3 inline modes, the counters of all PRF/PermutationFromPRF nodes after prepare_for_mpc_evaluation and after the final optimize_context are pairwise distinct and non-zero. part B: every inlined graph with 1..2 (thorough 3) nodes from {Random, RandomPermutation, PRF(key,iv), PermutationFromPRF(key,iv)} with key in {Random, Input, Constant, Random sent through an annotated NOP} x 9 output expressions (using all / some / none of them, through tuples, duplicated uses) is optimised; with the returned mapping every output-relevant original randomising node maps to a node with the identical operation, distinct originals map to distinct nodes, and the optimised graph has no randomising node without pre-image. distinct = distinct optimised contexts with >= 2 PRF nodes (A) and distinct generated graphs (B)",
+        "part A: for every program of the C01 space (depth 1 + curated + protocols drawing several masks from one key: OT, both truncations, A2B/B2A, sort, Call/Iterate bodies inlined 1,2,5,17 times) x owner vectors x output subsets x 3 inline modes, the counters of all PRF/PermutationFromPRF nodes after prepare_for_mpc_evaluation and after the final optimize_context are pairwise distinct and non-zero. part B: every inlined graph with 1..2 (thorough 3) nodes from {Random, RandomPermutation, PRF(key,iv), PermutationFromPRF(key,iv), CuckooToPermutation(x), DecomposeSwitchingMap(x)} with key in {Random, Input, Constant, Random sent through an annotated NOP} x 9 output expressions (using all / some / none of them, through tuples, duplicated uses) is optimised; with the returned mapping every output-relevant original randomising node maps to a node with the identical operation, distinct originals map to distinct nodes, and the optimised graph has no randomising node without pre-image. distinct = distinct optimised contexts with >= 2 PRF nodes (A) and distinct generated graphs (B)",
         true,
         &["structural oracle; the semantic effect of optimisation is C06's subject"],
         &["evaluations", "prf_nodes_inspected", "contexts_with_2plus_prf_nodes", "contexts_with_key_used_for_several_masks", "optimizer_graphs", "optimizer_graphs_with_dropped_random_node", "prenumbered_graphs"],
